@@ -24,8 +24,9 @@ def sh(cmd, cwd=None, timeout=3600):
 def demo_cmd(src, root, out):
     """build command: the demo's own first-comment command if it has one with $ROOT, else a default"""
     txt = open(src, errors="replace").read(3000)
-    m = re.search(r"((?:gcc|clang-14)\s[^\n]*\$ROOT[^\n]*?-o\s+\S+)", txt)
-    if m and ("-fsanitize=thread" in m.group(1) or "-ldl" in m.group(1)):
+    m = re.search(r"((?:make -C \$ROOT single_header[^\n]*?&&\s*)?(?:gcc|clang-14)\s[^\n]*\$ROOT[^\n]*?-o\s+\S+)", txt)
+    special = ("-fsanitize=thread", "-ldl", "-DNDEBUG", "single_header", "-DLIBGPC_VERIF")
+    if m and any(x in m.group(1) for x in special):
         # the demo states its own build command (needed for ThreadSanitizer / extra libraries)
         cmd = m.group(1).replace("$ROOT", root)
         cmd = re.sub(r"(?<=\s)demo\d*\.c(?=\s)", src, cmd)
